@@ -10,7 +10,9 @@ Pattern T on the STUB universe; the random source is a solver variable.
     exactly the set of valid splits (each once), and the split descended into is the one whose bracket (weights =
     products of counts, in the library's own enumeration order) contains r.
 (c) real Rule.random_sample_object_of_size: the final choice is uniform over the preimages (draw d -> d-th preimage).
-(d) whole specifications: covered by the end-to-end group of C01 (harness/e2e) once a specification exists.
+(d) whole specifications on REG (harness/e2e.py): for every returned specification, size and statistic value the *exact*
+    output distribution is computed by enumerating all outcomes of the random source (odometer over the draws, probability
+    = product of 1/range) and must be uniform over the brute-force objects; empty sizes must be refused.
 """
 import itertools
 from collections import Counter
@@ -298,6 +300,9 @@ PB = 2
 
 def on_shape(shape):
     global PLEN, PB, VMAX
+    if "db" in shape:
+        e2e.on_shape(shape)
+        return
     from typing import Tuple
     if shape.get("kind") == "product":
         PLEN = len(count_keys(shape))
@@ -365,6 +370,155 @@ def check_choice(d: int, c0: int) -> bool:
     return core.final(obj == ("pre", d, (("a", 0), ("b", 1))))
 
 
+# ------------------------------------------------------------------ (d) whole specifications: exact distribution
+from fractions import Fraction  # noqa: E402
+
+import harness.e2e as e2e  # noqa: E402
+import universes.reg as R  # noqa: E402
+from comb_spec_searcher.exception import InvalidOperationError  # noqa: E402
+from harness.e2e import Bad  # noqa: E402
+from vlib.shims import Clock, patched_env  # noqa: E402
+
+
+class EnumRNG:
+    """Enumerates *all* outcomes of the random source (the generator's decisions are enumerated, not sampled): a run
+    replays a prefix of choices and then takes 0; `advance` moves to the next outcome like an odometer.  The probability
+    of an outcome is the product of 1/cap over its draws."""
+
+    def __init__(self):
+        self.prefix = []
+        self.caps = []
+        self.pos = 0
+
+    def start(self):
+        self.pos = 0
+        self.caps = []
+
+    def draw(self, cap):
+        if self.pos < len(self.prefix):
+            v = self.prefix[self.pos]
+        else:
+            v = 0
+            self.prefix.append(0)
+        self.caps.append(cap)
+        self.pos += 1
+        return v
+
+    def probability(self):
+        p = Fraction(1)
+        for c in self.caps:
+            p /= c
+        return p
+
+    def advance(self):
+        del self.prefix[len(self.caps):]
+        i = len(self.caps) - 1
+        while i >= 0 and self.prefix[i] + 1 >= self.caps[i]:
+            i -= 1
+        if i < 0:
+            return False
+        self.prefix[i] += 1
+        del self.prefix[i + 1:]
+        return True
+
+    def choice(self, seq):
+        return seq[self.draw(len(seq))]
+
+    def randint(self, a, b):
+        return a + self.draw(b - a + 1)
+
+    def shuffle(self, x):
+        for i in reversed(range(1, len(x))):
+            j = self.draw(i + 1)
+            x[i], x[j] = x[j], x[i]
+
+
+def assert_uniform(ctx):
+    spec = ctx.spec
+    if spec is None:
+        return
+    for n in range(ctx.shape.get("nmax", 4) + 1):
+        for params in ctx.start.possible_parameters(n):
+            key = tuple(params[q] for q in ctx.start.extra_parameters)
+            if len(set(key)) > 1:
+                continue
+            truth = [w for w in R.words(ctx.table, n) if all(w.count("a") == v for v in key)]
+            rng = EnumRNG()
+            dist = {}
+            outcomes = 0
+            while True:
+                rng.start()
+                with patched_env(Clock(()), rng):
+                    try:
+                        obj = spec.random_sample_object_of_size(n, **params)
+                    except InvalidOperationError:
+                        obj = None
+                    except NotImplementedError:
+                        core.observe("specifications that decline sampling (complement/quotient rules)")
+                        return
+                if obj is None:
+                    if truth:
+                        raise Bad("sampling size %d %r refused although the class has %d such objects" % (n, params, len(truth)))
+                    break
+                if not truth:
+                    raise Bad("sampling size %d %r returned %r although the class has no such object" % (n, params, obj))
+                dist[str(obj)] = dist.get(str(obj), Fraction(0)) + rng.probability()
+                outcomes += 1
+                if outcomes > ctx.shape.get("max_outcomes", 5000):
+                    core.observe("sampling distributions too large to enumerate (skipped)")
+                    dist = None
+                    break
+                if not rng.advance():
+                    break
+            if dist is None or not truth:
+                continue
+            if sorted(dist) != sorted(truth):
+                raise Bad("sampling size %d %r can return %r, the objects are %r" % (n, params, sorted(dist), sorted(truth)))
+            for w, p in dist.items():
+                if p != Fraction(1, len(truth)):
+                    raise Bad("sampling size %d %r returns %r with probability %s, expected 1/%d (exact, over all %d outcomes of the "
+                              "random source)" % (n, params, w, p, len(truth), outcomes))
+            core.observe("exact sampling distributions checked")
+
+
+ASSERT = assert_uniform
+PREPARE = None
+
+# >>> e2e wrappers
+# ---- end-to-end wrappers (same text in every module that uses harness/e2e.py; ASSERT / PREPARE are module globals)
+def check_opt(t: int) -> bool:
+    """
+    pre: e2e.tin(t)
+    post: _
+    """
+    return core.final(e2e.body_opt(t, ASSERT, PREPARE))
+
+
+def check_sched(t: int, j: int) -> bool:
+    """
+    pre: e2e.tin(t) and 0 <= j <= e2e.NJ
+    post: _
+    """
+    return core.final(e2e.body_sched(t, j, ASSERT, PREPARE))
+
+
+def check_sched2(t: int, j0: int, j1: int) -> bool:
+    """
+    pre: e2e.tin(t) and 0 <= j0 < j1 <= e2e.NJ
+    post: _
+    """
+    return core.final(e2e.body_sched2(t, j0, j1, ASSERT, PREPARE))
+
+
+def check_rng(t: int, d0: int, d1: int, d2: int) -> bool:
+    """
+    pre: e2e.tin(t) and 0 <= d0 <= 2 and 0 <= d1 <= 2 and 0 <= d2 <= 2
+    post: _
+    """
+    return core.final(e2e.body_rng(t, (d0, d1, d2), ASSERT, PREPARE))
+# <<< e2e wrappers
+
+
 # ------------------------------------------------------------------ groups
 def UC(name, parent, children, maps, V=2):
     return {"name": name, "kind": "union", "parent": parent, "children": children, "maps": maps, "V": V}
@@ -414,7 +568,15 @@ def groups(tier):
     for p in pcs:
         gs.append({"name": "product-" + p["name"], "fn": "check_p", "shape": p, "cond_timeout": 1500.0, "path_timeout": 120.0, "weight": 50})
     gs.append({"name": "choice-among-preimages", "fn": "check_choice", "shape": {}, "cond_timeout": 300.0, "path_timeout": 60.0})
-    return gs
+    # (d) whole specifications: the exact output distribution over all outcomes of the random source
+    opts = ["plain", "symmetry", "k", "ku", "two"]
+    if tier == "thorough":
+        opts += ["inferral", "finite", "kk", "factory2", "two-k", "finite-mixed", "inferral-symmetry"]
+    e = e2e.std_groups(tier, dbs=("base", "forest"), opts=opts, sched=False, rng=False, S3=(tier == "thorough"))
+    for g in e:
+        g["shape"]["nmax"] = 3 if tier == "quick" else 4
+        g["shape"]["max_outcomes"] = 1500 if tier == "quick" else 20000
+    return gs + e
 
 
 def selftest(tier):
@@ -422,7 +584,19 @@ def selftest(tier):
     sh = PC("t", ["k"], [pch(["k"], 1, False), pch(["k"], 1, False)], [{"k": "k"}, {"k": "k"}], 2, [1])
     sp = valid_splits(sh, 2, {"k": 1})
     assert sorted(c for c, _ in sp) == [((1, 0), (1, 1)), ((1, 1), (1, 0))], sp
-    return {}
+    # the outcome enumerator visits every outcome once and the probabilities add up to one
+    rng = EnumRNG()
+    seen, tot = [], Fraction(0)
+    while True:
+        rng.start()
+        a = rng.randint(1, 3)
+        b = rng.choice("xy") if a == 2 else "-"
+        seen.append((a, b))
+        tot += rng.probability()
+        if not rng.advance():
+            break
+    assert sorted(seen) == [(1, "-"), (2, "x"), (2, "y"), (3, "-")] and tot == 1, (seen, tot)
+    return e2e.selftest_universe(tier)
 
 
 def meta(tier):
